@@ -778,3 +778,8 @@ func (g *G) shadowCandidate(t Ty) string {
 	}
 	return ""
 }
+
+// Bind makes a non-optional variable of the given type visible to the expression generator.
+func (g *G) Bind(name string, t Ty) {
+	g.push(&binding{name: name, ty: t, kind: "param"})
+}
